@@ -224,6 +224,8 @@ func main() {
 			}
 		}
 		g(c)
+		cleanupVodRoot()
+		_ = os.RemoveAll(filepath.Join(workDir(), "c17", fmt.Sprint(os.Getpid())))
 		must(c.ops.Flush())
 		must(c.impl.Flush())
 		must(c.mon.Flush())
